@@ -310,6 +310,20 @@ func c18MkReader(kind string, b []byte) c18Reader {
 // c18Decode runs the real decoder of `item` over b with the given reader kind. It returns the protocol
 // result, the decoded value (for the oracle) and the number of bytes consumed.
 func c18Decode(item, kind string, b []byte) (res string, val any, consumed int) {
+	return c18DecodeInto(item, kind, b, nil)
+}
+
+// c18Recv returns the receiver to decode into: a fresh value, or the used one handed in.
+func c18Recv[T any](used any) *T {
+	if u, ok := used.(*T); ok && u != nil {
+		return u
+	}
+	return new(T)
+}
+
+// c18DecodeInto is c18Decode with a receiver that already holds an earlier decoding (used != nil): a decoder
+// must leave the receiver describing the bytes it accepted, whatever the receiver held before.
+func c18DecodeInto(item, kind string, b []byte, used any) (res string, val any, consumed int) {
 	b = c18Exact(b)
 	r := c18MkReader(kind, b)
 	var err error
@@ -318,36 +332,36 @@ func c18Decode(item, kind string, b []byte) (res string, val any, consumed int) 
 	p, _, _ := Guard(func() {
 		switch item {
 		case "cstr":
-			v := &eventlog.ByteSizedCStr{}
+			v := c18Recv[eventlog.ByteSizedCStr](used)
 			err = v.Unmarshal(r)
 			text, val = func() string { return hx([]byte(v.Data)) }, v
 		case "u32arr":
-			v := &eventlog.Uint32SizedArray{}
+			v := c18Recv[eventlog.Uint32SizedArray](used)
 			err = v.Unmarshal(r)
 			text, val = func() string { return hx(v.Data) }, v
 		case "guid":
-			v := &eventlog.EfiGUID{}
+			v := c18Recv[eventlog.EfiGUID](used)
 			err = v.Unmarshal(r)
 			text, val = func() string { return hx(v.UUID[:]) }, v
 		case "digest":
-			v := &eventlog.TaggedDigest{}
+			v := c18Recv[eventlog.TaggedDigest](used)
 			err = v.Unmarshal(r)
 			text, val = func() string { return c18DigestText(v) }, v
 		case "pcrevent":
-			v := &eventlog.TCGPCClientPCREvent{}
+			v := c18Recv[eventlog.TCGPCClientPCREvent](used)
 			err = v.Unmarshal(r)
 			text, val = func() string { return c18PcrText(v) }, v
 		case "event2":
-			v := &eventlog.TCGPCREvent2{}
+			v := c18Recv[eventlog.TCGPCREvent2](used)
 			err = v.Unmarshal(r)
 			text, val = func() string { return c18Ev2Text(v) }, v
 		case "log":
-			v := &eventlog.CryptoAgileLog{}
+			v := c18Recv[eventlog.CryptoAgileLog](used)
 			err = v.Unmarshal(r)
 			text, val = func() string { return c18LogText(v) }, v
 			withRest = false
 		case "event3":
-			v := &eventlog.SP800155Event3{}
+			v := c18Recv[eventlog.SP800155Event3](used)
 			err = v.UnmarshalFromBytes(b)
 			text, val = func() string { return c18Ev3Text(v) }, v
 			withRest = false
